@@ -376,9 +376,7 @@ impl<'a> JSONValidator<'a> {
           let _ = write!(self.state.data_location, "/{}", t);
 
           return Ok(());
-        } else if let Some(Occur::Optional { .. }) | Some(Occur::ZeroOrMore { .. }) =
-          &self.state.occurrence.take()
-        {
+        } else if occurrence_admits_absence(self.state.occurrence.take().as_ref()) {
           self.state.advance_to_next_entry = true;
           return Ok(());
         } else if let Some(ControlOperator::NE) | Some(ControlOperator::DEFAULT) = &self.state.ctrl
@@ -405,9 +403,7 @@ impl<'a> JSONValidator<'a> {
           self.state.data_location.push_str(&format!("/{}", t));
 
           return Ok(());
-        } else if let Some(Occur::Optional {}) | Some(Occur::ZeroOrMore {}) =
-          &self.state.occurrence.take()
-        {
+        } else if occurrence_admits_absence(self.state.occurrence.take().as_ref()) {
           self.state.advance_to_next_entry = true;
           return Ok(());
         } else if let Some(Token::NE) | Some(Token::DEFAULT) = &self.state.ctrl {
